@@ -1,6 +1,6 @@
 (* Record-level round trip (C14): octet-level decoding lemmas for the fixed fields and the
    record kinds whose data is a single name. *)
-From Erbium Require Import Lib.Base Model.DnsName Model.DnsCodec Proofs.DnsName Proofs.DnsCodec.
+From Erbium Require Import Lib.Base Model.DnsName Model.DnsCodec Model.DnsStrict Proofs.DnsName Proofs.DnsCodec.
 
 Lemma get_u16_be16 v r off : v < 65536 -> get_u16 (be16 v ++ r, off) = Ok (v, (r, off + 2)).
 Proof.
@@ -33,87 +33,430 @@ Proof.
   remember ((v / 65536) mod 256) as r2. remember ((v / 256) mod 256) as r1. remember (v mod 256) as r0. lia.
 Qed.
 
-(* a name written at the end of [pre] is read back by the cursor-level reader,
+
+(* both decoders (the model of the implementation's and the strict one of the
+   specification side) read name n at cursor c and move to c' *)
+Definition name_read (B : list N) (c : cur) (n : name) (c' : cur) : Prop :=
+  get_name B c = Ok (n, c') /\ s_name B c = Some (n, c').
+
+(* a name written at the end of [pre] is read back by the cursor-level readers,
    whatever follows it *)
 Lemma get_name_written pre kids n :
   0 < lenN pre -> Forall (tree_ok pre []) kids -> wf_name n = true ->
   exists b kids', push_name (lenN pre) kids n = Ok (b, kids') /\
-    Forall (tree_ok (pre ++ b) []) kids' /\
-    forall post, get_name (pre ++ b ++ post) (b ++ post, lenN pre) = Ok (n, (post, lenN pre + lenN b)).
+    Forall (tree_ok (pre ++ b) []) kids' /\ lenN b <= wire_len n /\ 0 < lenN b /\
+    forall post, name_read (pre ++ b ++ post) (b ++ post, lenN pre) n (post, lenN pre + lenN b).
 Proof.
   intros Hpos Hk Hwf. apply wf_name_labels in Hwf as [Hl Hw].
   pose proof (push_name_spec pre kids n Hpos Hk Hl) as H.
   pose proof (wire_len_labels n Hl) as Hn.
-  destruct (push_name (lenN pre) kids n) as [[b kids']| |]; try contradiction.
+  destruct (push_name (lenN pre) kids n) as [[b kids']| |] eqn:Ep; try contradiction.
   destruct H as (Hk' & h & Hna & Hh). exists b, kids'. split; auto. split; auto.
-  intros post. unfold get_name. cbn [fst snd].
-  assert (Hg : get_domain_into NAME_FUEL (pre ++ b ++ post) (dropN (lenN pre) (pre ++ b ++ post)) (lenN pre) 1 0
-               = Ok (n, lenN pre + lenN b)).
-  { apply decode_complete with (h := h); unfold NAME_FUEL, LIMIT, MAXNAME; try lia.
-    rewrite app_assoc. now apply name_at_app. }
-  rewrite dropN_app_exact in Hg.
-  rewrite Hg. cbn [obind].
-  replace (lenN pre + lenN b - lenN pre) with (lenN b) by lia.
-  rewrite dropN_app_exact. reflexivity.
+  split; [eapply push_name_len; eauto|].
+  assert (Hb0 : 0 < lenN b).
+  { apply name_at_lt in Hna. rewrite lenN_app in Hna. lia. }
+  split; auto.
+  intros post. split.
+  - unfold get_name. cbn [fst snd].
+    assert (Hg : get_domain_into NAME_FUEL (pre ++ b ++ post) (dropN (lenN pre) (pre ++ b ++ post)) (lenN pre) 1 0
+                 = Ok (n, lenN pre + lenN b)).
+    { apply decode_complete with (h := h); unfold NAME_FUEL, LIMIT, MAXNAME; try lia.
+      rewrite app_assoc. now apply name_at_app. }
+    rewrite dropN_app_exact in Hg.
+    rewrite Hg. cbn [obind].
+    replace (lenN pre + lenN b - lenN pre) with (lenN b) by lia.
+    rewrite dropN_app_exact. reflexivity.
+  - unfold s_name. cbn [fst snd].
+    assert (Hg : strict_name NAME_FUEL (pre ++ b ++ post) (dropN (lenN pre) (pre ++ b ++ post)) (lenN pre) 0
+                 = Some (n, lenN pre + lenN b)).
+    { apply strict_complete with (h := h); unfold NAME_FUEL; try lia.
+      rewrite app_assoc. now apply name_at_app. }
+    rewrite dropN_app_exact in Hg.
+    rewrite Hg.
+    replace (lenN pre + lenN b - lenN pre) with (lenN b) by lia.
+    rewrite dropN_app_exact. reflexivity.
 Qed.
 
-(* C14 at the record level, for the record kinds whose data is one name
-   (CNAME, NS, PTR): written after [buf] with a valid dictionary, the record is
-   read back by get_rr from the final buffer, and the dictionary stays valid. *)
-Lemma rr_one_name_roundtrip buf kids r d :
-  0 < lenN buf -> Forall (tree_ok buf []) kids ->
-  wf_name (r_name r) = true -> wf_name d = true ->
-  r_class r < 65536 -> r_ttl r < 4294967296 ->
-  (r_type r = T_CNAME /\ r_data r = RCName d \/ r_type r = T_NS /\ r_data r = RNs d \/
-   r_type r = T_PTR /\ r_data r = RPtr d) ->
-  exists b kids', push_rr (lenN buf) kids r = Ok (b, kids') /\
-    Forall (tree_ok (buf ++ b) []) kids' /\
-    get_rr (buf ++ b) (b, lenN buf) = Ok (r, ([], lenN buf + lenN b)).
+Global Opaque get_name s_name.
+
+Lemma lenN_repeat {A} (x : A) n : lenN (repeatN x n) = n.
+Proof. unfold lenN, repeatN. rewrite repeat_length. lia. Qed.
+
+(* the same after a gap of g octets whose content is written later (the fixed
+   fields and RDLENGTH of a record): the octets and the dictionary do not
+   depend on the content of the gap *)
+Lemma name_after_gap buf kids n g :
+  0 < lenN buf -> Forall (tree_ok buf []) kids -> wf_name n = true ->
+  exists b kids', push_name (lenN buf + g) kids n = Ok (b, kids') /\ lenN b <= wire_len n /\ 0 < lenN b /\
+    forall gap, lenN gap = g ->
+      Forall (tree_ok (buf ++ gap ++ b) []) kids' /\
+      forall post, name_read (buf ++ gap ++ b ++ post) (b ++ post, lenN buf + g) n (post, lenN buf + g + lenN b).
 Proof.
-  intros Hpos Hk Hn Hd Hc Ht Hty.
-  destruct (get_name_written buf kids (r_name r) Hpos Hk Hn) as (nb & k1 & En & Hk1 & Gn).
+  intros Hpos Hk Hwf.
+  assert (Hgen : forall gap, lenN gap = g ->
+            exists b kids', push_name (lenN buf + g) kids n = Ok (b, kids') /\
+              Forall (tree_ok (buf ++ gap ++ b) []) kids' /\ lenN b <= wire_len n /\ 0 < lenN b /\
+              forall post, name_read (buf ++ gap ++ b ++ post) (b ++ post, lenN buf + g) n (post, lenN buf + g + lenN b)).
+  { intros gap Hg.
+    assert (Hp : 0 < lenN (buf ++ gap)) by (rewrite lenN_app; lia).
+    assert (Hk2 : Forall (tree_ok (buf ++ gap) []) kids) by now apply forall_tree_ok_app.
+    destruct (get_name_written (buf ++ gap) kids n Hp Hk2 Hwf) as (b & k' & E & T & L & L0 & R).
+    rewrite lenN_app, Hg in E, R. exists b, k'. rewrite <- app_assoc in T.
+    split; [exact E|]. split; [exact T|]. split; [exact L|]. split; [exact L0|].
+    intros post. specialize (R post). rewrite <- app_assoc in R. exact R. }
+  destruct (Hgen (repeatN 0 g) (lenN_repeat 0 g)) as (b & k' & E & _ & L & L0 & _).
+  exists b, k'. split; [exact E|]. split; [exact L|]. split; [exact L0|].
+  intros gap Hg. destruct (Hgen gap Hg) as (b2 & k2 & E2 & T2 & _ & _ & R2).
+  rewrite E in E2. inversion E2; subst b2 k2. split; [exact T2|exact R2].
+Qed.
+
+
+(* ---- record data as a sequence of fields ------------------------------------ *)
+Inductive field := FName (n : name) | FRaw (bs : list N).
+
+Fixpoint enc_fields (pos : N) (kids : list tree) (fs : list field) : outcome (list (list N) * list tree) :=
+  match fs with
+  | [] => Ok ([], kids)
+  | FName n :: r =>
+    do (b, k) <- push_name pos kids n;
+    do (cs, k2) <- enc_fields (pos + lenN b) k r;
+    Ok (b :: cs, k2)
+  | FRaw bs :: r =>
+    do (cs, k2) <- enc_fields (pos + lenN bs) kids r;
+    Ok (bs :: cs, k2)
+  end.
+
+Definition field_ok (f : field) : Prop := match f with FName n => wf_name n = true | FRaw _ => True end.
+Definition field_len (f : field) : N := match f with FName n => wire_len n | FRaw bs => lenN bs end.
+
+(* reading the chunks back, field by field *)
+Fixpoint reads (B : list N) (off : N) (cs : list (list N)) (fs : list field) (post : list N) : Prop :=
+  match fs, cs with
+  | [], [] => True
+  | FName n :: fs', c :: cs' =>
+    name_read B (c ++ concat cs' ++ post, off) n (concat cs' ++ post, off + lenN c) /\
+    reads B (off + lenN c) cs' fs' post
+  | FRaw bs :: fs', c :: cs' => c = bs /\ reads B (off + lenN c) cs' fs' post
+  | _, _ => False
+  end.
+
+Lemma fields_written : forall fs buf kids g,
+  0 < lenN buf -> Forall (tree_ok buf []) kids -> Forall field_ok fs ->
+  exists cs kids', enc_fields (lenN buf + g) kids fs = Ok (cs, kids') /\
+    lenN (concat cs) <= fold_right (fun f a => field_len f + a) 0 fs /\
+    forall gap, lenN gap = g ->
+      Forall (tree_ok (buf ++ gap ++ concat cs) []) kids' /\
+      forall post, reads (buf ++ gap ++ concat cs ++ post) (lenN buf + g) cs fs post.
+Proof.
+  induction fs as [|f fs IH]; intros buf kids g Hpos Hk Hf.
+  - exists [], kids. split; [reflexivity|]. split; [unfold lenN; simpl; lia|].
+    intros gap Hg. simpl. rewrite app_nil_r. split; [now apply forall_tree_ok_app|auto].
+  - inversion Hf as [|? ? Hf1 Hf2]; subst. destruct f as [n|bs].
+    + simpl in Hf1.
+      destruct (name_after_gap buf kids n g Hpos Hk Hf1) as (b & k1 & E & L & L0 & Hb).
+      (* existence, with some gap *)
+      assert (Hgen : forall gap, lenN gap = g ->
+                exists cs k2, enc_fields (lenN buf + g + lenN b) k1 fs = Ok (cs, k2) /\
+                  lenN (concat cs) <= fold_right (fun f a => field_len f + a) 0 fs /\
+                  Forall (tree_ok (buf ++ gap ++ b ++ concat cs) []) k2 /\
+                  forall post, reads (buf ++ gap ++ b ++ concat cs ++ post) (lenN buf + g + lenN b) cs fs post).
+      { intros gap Hg. destruct (Hb gap Hg) as [T _].
+        assert (Hp1 : 0 < lenN (buf ++ gap ++ b)) by (rewrite !lenN_app; lia).
+        destruct (IH (buf ++ gap ++ b) k1 0 Hp1 T Hf2) as (cs & k2 & E2 & L2 & H2).
+        rewrite !lenN_app, Hg in E2.
+        replace (lenN buf + (g + lenN b) + 0) with (lenN buf + g + lenN b) in E2 by lia.
+        exists cs, k2. split; auto. split; auto.
+        destruct (H2 [] eq_refl) as [T2 R2]. simpl in T2, R2.
+        rewrite <- !app_assoc in T2. split; auto.
+        intros post. specialize (R2 post). rewrite <- !app_assoc in R2.
+        rewrite !lenN_app, Hg in R2.
+        replace (lenN buf + (g + lenN b) + 0) with (lenN buf + g + lenN b) in R2 by lia. exact R2. }
+      destruct (Hgen (repeatN 0 g) (lenN_repeat 0 g)) as (cs & k2 & E2 & L2 & _).
+      exists (b :: cs), k2. split; [|split].
+      * simpl. rewrite E. cbn [obind]. rewrite E2. reflexivity.
+      * simpl. rewrite lenN_app. lia.
+      * intros gap Hg. destruct (Hgen gap Hg) as (cs' & k2' & E2' & _ & T2 & R2).
+        rewrite E2 in E2'. inversion E2'; subst cs' k2'.
+        destruct (Hb gap Hg) as [_ Rn]. simpl concat. split; auto.
+        intros post. simpl. split.
+        -- specialize (Rn (concat cs ++ post)). rewrite <- app_assoc. exact Rn.
+        -- rewrite <- app_assoc. apply R2.
+    + destruct (IH buf kids (g + lenN bs) Hpos Hk Hf2) as (cs & k2 & E2 & L2 & H2).
+      replace (lenN buf + (g + lenN bs)) with (lenN buf + g + lenN bs) in E2 by lia.
+      exists (bs :: cs), k2. split; [|split].
+      * simpl. rewrite E2. reflexivity.
+      * simpl. rewrite lenN_app. lia.
+      * intros gap Hg.
+        assert (Hg2 : lenN (gap ++ bs) = g + lenN bs) by (rewrite lenN_app; lia).
+        destruct (H2 (gap ++ bs) Hg2) as [T2 R2]. simpl concat. rewrite <- !app_assoc in T2. split; auto.
+        intros post. simpl. split; auto. specialize (R2 post). rewrite <- !app_assoc in R2.
+        replace (lenN buf + (g + lenN bs)) with (lenN buf + g + lenN bs) in R2 by lia.
+        rewrite <- app_assoc. exact R2.
+Qed.
+
+(* ---- EDNS options ------------------------------------------------------------ *)
+Lemma be16_split v : v < 65536 -> (v / 256) mod 256 * 256 + v mod 256 = v.
+Proof.
+  intros H. pose proof (N.div_mod v 256 ltac:(lia)) as D.
+  assert (v / 256 < 256) by (apply N.div_lt_upper_bound; lia).
+  rewrite (N.mod_small (v / 256) 256) by lia.
+  remember (v / 256) as d. remember (v mod 256) as m. lia.
+Qed.
+
+Lemma take_exact_lenN {A} (d r : list A) : take_exact (N.to_nat (lenN d)) (d ++ r) = Some (d, r).
+Proof. unfold lenN. rewrite Nat2N.id. apply take_exact_app. Qed.
+
+Definition opt_ok (c : N * list N) : Prop := fst c < 65536 /\ lenN (snd c) < 65536.
+
+Lemma wf_opts_ok o : wf_opts o = true -> Forall opt_ok o /\ lenN (enc_opts o) < 65536.
+Proof.
+  unfold wf_opts. intros H. apply andb_true_iff in H as [H1 H2]. apply N.ltb_lt in H2. split; auto.
+  rewrite forallb_forall in H1. apply Forall_forall. intros c Hc. specialize (H1 c Hc).
+  apply andb_true_iff in H1 as [H1 _]. apply andb_true_iff in H1 as [H3 H4].
+  apply N.ltb_lt in H3, H4. split; auto.
+Qed.
+
+Lemma options_roundtrip : forall o fuel, Forall opt_ok o -> (length (enc_opts o) < fuel)%nat ->
+  get_options fuel (enc_opts o) = Ok o /\ s_options fuel (enc_opts o) = Some o.
+Proof.
+  induction o as [|[c d] o IH]; intros fuel Ho Hf.
+  - destruct fuel; [simpl in Hf; lia|]. split; reflexivity.
+  - inversion Ho as [|? ? [H1 H2] Ho']; subst. simpl in H1, H2.
+    destruct fuel; [simpl in Hf; lia|].
+    change (enc_opts ((c, d) :: o)) with ((be16 c ++ be16 (lenN d) ++ d) ++ enc_opts o) in *.
+    unfold be16 in *. cbn [app] in *. cbn [get_options s_options].
+    rewrite (be16_split c H1), (be16_split (lenN d) H2).
+    rewrite !take_exact_lenN.
+    assert (Hf' : (length (enc_opts o) < fuel)%nat).
+    { simpl in Hf. rewrite app_length in Hf. lia. }
+    destruct (IH fuel Ho' Hf') as [-> ->]. split; reflexivity.
+Qed.
+
+(* ---- the eleven kinds of record data as field sequences ------------------------ *)
+Definition fields_of (d : rdata) : list field :=
+  match d with
+  | RCName n | RNs n | RPtr n => [FName n]
+  | RMx p n | RRt p n | RAfsDb p n => [FRaw (be16 p); FName n]
+  | RNaPtr o p f s r n =>
+    [FRaw (be16 o ++ be16 p ++ (lenN f :: f) ++ (lenN s :: s) ++ (lenN r :: r)); FName n]
+  | RRp m t => [FName m; FName t]
+  | RSoa m r s rf rt e mi => [FName m; FName r; FRaw (be32 s ++ be32 rf ++ be32 rt ++ be32 e ++ be32 mi)]
+  | ROpt o => [FRaw (enc_opts o)]
+  | ROther x => [FRaw x]
+  end.
+
+Ltac btrue H :=
+  repeat match goal with
+         | Hx : (_ && _) = true |- _ => apply andb_true_iff in Hx as [? ?]
+         end.
+
+Lemma wf_rdata_fields d : wf_rdata d = true -> Forall field_ok (fields_of d).
+Proof.
+  destruct d; simpl; intros H; btrue H; repeat (apply Forall_cons || apply Forall_nil); simpl; auto.
+Qed.
+
+Lemma wf_str_ok s : wf_str s = true -> lenN s < 256.
+Proof. unfold wf_str. intros H. apply andb_true_iff in H as [H _]. now apply N.ltb_lt. Qed.
+
+Lemma push_rdata_fields base kids ty d cs k :
+  wf_rdata d = true -> kind_type_ok ty d = true ->
+  enc_fields base kids (fields_of d) = Ok (cs, k) -> push_rdata base kids ty d = Ok (concat cs, k).
+Proof.
+  intros Hw Hk H. destruct d; simpl in H, Hk, Hw |- *.
+  - apply obind_ok in H as ([b k1] & E & H). inversion H; subst. rewrite E. simpl. rewrite ?app_nil_r; reflexivity.
+  - apply obind_ok in H as ([cs1 k1] & E & H). apply obind_ok in E as ([b k1'] & E & E').
+    inversion E'; subst. inversion H; subst.
+    change (lenN (be16 pref)) with 2 in E. rewrite E. simpl. rewrite ?app_nil_r; reflexivity.
+  - apply obind_ok in H as ([b k1] & E & H). inversion H; subst. rewrite E. simpl. rewrite ?app_nil_r; reflexivity.
+  - apply obind_ok in H as ([b k1] & E & H). inversion H; subst. rewrite E. simpl. rewrite ?app_nil_r; reflexivity.
+  - apply N.eqb_eq in Hk. subst ty. cbn [negb N.eqb T_SOA Pos.eqb].
+    apply obind_ok in H as ([b1 k1] & E1 & H). apply obind_ok in H as ([cs2 k2] & E2 & H).
+    apply obind_ok in E2 as ([b2' k2'] & E2 & E3). simpl in E3. inversion E3; subst. inversion H; subst.
+    rewrite E1. cbn [obind]. rewrite E2. cbn [obind]. simpl. rewrite ?app_nil_r; reflexivity.
+  - apply N.eqb_eq in Hk. subst ty. inversion H; subst. simpl. rewrite ?app_nil_r; reflexivity.
+  - apply obind_ok in H as ([cs1 k1] & E & H). apply obind_ok in E as ([b k1'] & E & E').
+    inversion E'; subst. inversion H; subst.
+    change (lenN (be16 subtype)) with 2 in E. rewrite E. simpl. rewrite ?app_nil_r; reflexivity.
+  - apply obind_ok in H as ([b1 k1] & E1 & H). apply obind_ok in H as ([cs2 k2] & E2 & H).
+    apply obind_ok in E2 as ([b2' k2'] & E2 & E3). simpl in E3. inversion E3; subst. inversion H; subst.
+    rewrite E1. cbn [obind]. rewrite E2. cbn [obind]. simpl. rewrite ?app_nil_r; reflexivity.
+  - apply obind_ok in H as ([cs1 k1] & E & H). apply obind_ok in E as ([b k1'] & E & E').
+    inversion E'; subst. inversion H; subst.
+    change (lenN (be16 pref)) with 2 in E. rewrite E. simpl. rewrite ?app_nil_r; reflexivity.
+  - btrue Hw. unfold push_str.
+    assert (S1 : (lenN flags <? 256) = true) by (apply N.ltb_lt, wf_str_ok; assumption).
+    assert (S2 : (lenN services <? 256) = true) by (apply N.ltb_lt, wf_str_ok; assumption).
+    assert (S3 : (lenN regexp <? 256) = true) by (apply N.ltb_lt, wf_str_ok; assumption).
+    rewrite S1, S2, S3. cbn [obind].
+    apply obind_ok in H as ([cs1 k1] & E & H). apply obind_ok in E as ([b k1'] & E & E').
+    inversion E'; subst. inversion H; subst.
+    match type of E with push_name ?p _ _ = _ => match goal with |- context [push_name ?q _ _] => replace q with p end end.
+    2:{ reflexivity. }
+    rewrite E. simpl. rewrite <- !app_assoc. simpl. rewrite ?app_nil_r; reflexivity.
+  - assert (Hn : (ty =? T_OPT) || (ty =? T_SOA) = false).
+    { apply negb_true_iff in Hk. simpl in Hk. unfold T_OPT, T_SOA in *.
+      destruct (ty =? 41); destruct (ty =? 6); simpl in *; auto;
+        repeat (rewrite ?orb_true_r in Hk; simpl in Hk); try discriminate. }
+    rewrite Hn. btrue Hw.
+    assert (Hd : lenN data < 65536) by (apply N.ltb_lt; assumption).
+    destruct (65535 <? lenN data) eqn:E; [apply N.ltb_lt in E; lia|].
+    inversion H; subst. simpl. rewrite ?app_nil_r; reflexivity.
+Qed.
+
+(* ---- reading record data back (model of the implementation's decoder) ------------ *)
+Lemma get_bytes_app (d r : list N) off : get_bytes (lenN d) (d ++ r, off) = Ok (d, (r, off + lenN d)).
+Proof. unfold get_bytes. cbn [fst snd]. rewrite take_exact_lenN. reflexivity. Qed.
+
+Lemma get_string_app (s r : list N) off : lenN s < 256 ->
+  get_string (lenN s :: s ++ r, off) = Ok (s, (r, off + 1 + lenN s)).
+Proof.
+  intros H. unfold get_string, get_u8. cbn [fst snd app obind]. rewrite get_bytes_app. reflexivity.
+Qed.
+
+Lemma other_type ty x : kind_type_ok ty (ROther x) = true ->
+  (ty =? T_CNAME) = false /\ (ty =? T_MX) = false /\ (ty =? T_NS) = false /\ (ty =? T_PTR) = false /\
+  (ty =? T_SOA) = false /\ (ty =? T_OPT) = false /\ (ty =? T_AFSDB) = false /\ (ty =? T_RP) = false /\
+  (ty =? T_RT) = false /\ (ty =? T_NAPTR) = false.
+Proof.
+  unfold kind_type_ok. intros H. apply negb_true_iff in H. cbn [existsb] in H.
+  repeat (apply orb_false_iff in H; destruct H as [? H]). repeat split; assumption.
+Qed.
+
+Ltac w16 H := match type of H with w16 _ = true => unfold w16 in H; apply N.ltb_lt in H end.
+Ltac w32 H := match type of H with w32 _ = true => unfold w32 in H; apply N.ltb_lt in H end.
+Ltac wnum := repeat match goal with
+                    | H : w16 _ = true |- _ => unfold w16 in H; apply N.ltb_lt in H
+                    | H : w32 _ = true |- _ => unfold w32 in H; apply N.ltb_lt in H
+                    end.
+
+Lemma rdata_read B off0 ty d cs post :
+  wf_rdata d = true -> kind_type_ok ty d = true -> lenN (concat cs) < 65536 ->
+  reads B (off0 + 2) cs (fields_of d) post ->
+  get_rdata B ty (be16 (lenN (concat cs)) ++ concat cs ++ post, off0)
+  = Ok (d, (post, off0 + 2 + lenN (concat cs))).
+Proof.
+  intros Hw Hk HL HR. unfold get_rdata. rewrite (get_u16_be16 _ _ _ HL). cbn [obind].
+  destruct d; cbn [fields_of] in HR; cbn [wf_rdata] in Hw; btrue Hw; wnum;
+    try (apply N.eqb_eq in Hk; subst ty).
+  - (* CNAME *) destruct cs as [|c [|? ?]]; cbn [reads] in HR; try (exfalso; tauto). destruct HR as [[G _] _].
+    cbn [concat app] in *. rewrite app_nil_r in *. cbn. rewrite G. cbn [obind]. reflexivity.
+  - (* MX *) destruct cs as [|c1 [|c2 [|? ?]]]; cbn [reads] in HR; try (exfalso; tauto). destruct HR as [-> [[G _] _]].
+    cbn [concat app] in *. rewrite app_nil_r in *. rewrite <- app_assoc. cbn [N.eqb Pos.eqb T_CNAME T_NS T_PTR T_AFSDB T_RP T_RT T_MX].
+    rewrite get_u16_be16 by assumption. cbn [obind].
+    change (lenN (be16 pref)) with 2 in G. rewrite G. cbn [obind].
+    rewrite lenN_app. change (lenN (be16 pref)) with 2.
+    replace (off0 + 2 + 2 + lenN c2) with (off0 + 2 + (2 + lenN c2)) by lia. reflexivity.
+  - (* NS *) destruct cs as [|c [|? ?]]; cbn [reads] in HR; try (exfalso; tauto). destruct HR as [[G _] _].
+    cbn [concat app] in *. rewrite app_nil_r in *. cbn. rewrite G. cbn [obind]. reflexivity.
+  - (* PTR *) destruct cs as [|c [|? ?]]; cbn [reads] in HR; try (exfalso; tauto). destruct HR as [[G _] _].
+    cbn [concat app] in *. rewrite app_nil_r in *. cbn. rewrite G. cbn [obind]. reflexivity.
+  - (* SOA *) destruct cs as [|c1 [|c2 [|c3 [|? ?]]]]; cbn [reads] in HR; try (exfalso; tauto).
+    destruct HR as [[G1 _] [[G2 _] [-> _]]].
+    cbn [concat app] in *. rewrite app_nil_r in *. cbn [N.eqb Pos.eqb T_CNAME T_NS T_PTR T_AFSDB T_RP T_RT T_MX T_NAPTR T_OPT T_SOA].
+    rewrite <- !app_assoc in *. rewrite G1. cbn [obind]. rewrite G2. cbn [obind].
+    repeat (rewrite get_u32_be32 by assumption; cbn [obind]).
+    rewrite !lenN_app. do 5 change (lenN (be32 _)) with 4 at 1.
+    match goal with |- Ok (_, (_, ?a)) = Ok (_, (_, ?b)) => replace a with b by lia end. reflexivity.
+  - (* OPT *) destruct cs as [|c1 [|? ?]]; cbn [reads] in HR; try (exfalso; tauto). destruct HR as [-> _].
+    cbn [concat app] in *. rewrite app_nil_r in *. cbn [N.eqb Pos.eqb T_CNAME T_NS T_PTR T_AFSDB T_RP T_RT T_MX T_NAPTR T_OPT T_SOA].
+    rewrite get_bytes_app. cbn [obind].
+    match goal with H : wf_opts _ = true |- _ => apply wf_opts_ok in H as [Ho _] end.
+    destruct (options_roundtrip o (S (length (enc_opts o))) Ho ltac:(lia)) as [-> _]. cbn [obind]. reflexivity.
+  - (* AFSDB *) destruct cs as [|c1 [|c2 [|? ?]]]; cbn [reads] in HR; try (exfalso; tauto). destruct HR as [-> [[G _] _]].
+    cbn [concat app] in *. rewrite app_nil_r in *. rewrite <- app_assoc. cbn [N.eqb Pos.eqb T_CNAME T_NS T_PTR T_AFSDB T_RP T_RT T_MX].
+    rewrite get_u16_be16 by assumption. cbn [obind].
+    change (lenN (be16 subtype)) with 2 in G. rewrite G. cbn [obind].
+    rewrite lenN_app. change (lenN (be16 subtype)) with 2.
+    replace (off0 + 2 + 2 + lenN c2) with (off0 + 2 + (2 + lenN c2)) by lia. reflexivity.
+  - (* RP *) destruct cs as [|c1 [|c2 [|? ?]]]; cbn [reads] in HR; try (exfalso; tauto). destruct HR as [[G1 _] [[G2 _] _]].
+    cbn [concat app] in *. rewrite app_nil_r in *. cbn [N.eqb Pos.eqb T_CNAME T_NS T_PTR T_AFSDB T_RP T_RT T_MX].
+    rewrite <- !app_assoc in *. rewrite G1. cbn [obind]. rewrite G2. cbn [obind].
+    rewrite lenN_app. replace (off0 + 2 + lenN c1 + lenN c2) with (off0 + 2 + (lenN c1 + lenN c2)) by lia. reflexivity.
+  - (* RT *) destruct cs as [|c1 [|c2 [|? ?]]]; cbn [reads] in HR; try (exfalso; tauto). destruct HR as [-> [[G _] _]].
+    cbn [concat app] in *. rewrite app_nil_r in *. rewrite <- app_assoc. cbn [N.eqb Pos.eqb T_CNAME T_NS T_PTR T_AFSDB T_RP T_RT T_MX].
+    rewrite get_u16_be16 by assumption. cbn [obind].
+    change (lenN (be16 pref)) with 2 in G. rewrite G. cbn [obind].
+    rewrite lenN_app. change (lenN (be16 pref)) with 2.
+    replace (off0 + 2 + 2 + lenN c2) with (off0 + 2 + (2 + lenN c2)) by lia. reflexivity.
+  - (* NAPTR *) destruct cs as [|c1 [|c2 [|? ?]]]; cbn [reads] in HR; try (exfalso; tauto). destruct HR as [-> [[G _] _]].
+    cbn [concat app] in *. rewrite app_nil_r in *. cbn [N.eqb Pos.eqb T_CNAME T_NS T_PTR T_AFSDB T_RP T_RT T_MX T_NAPTR].
+    rewrite <- !app_assoc in *.
+    rewrite get_u16_be16 by assumption. cbn [obind]. rewrite get_u16_be16 by assumption. cbn [obind].
+    repeat (rewrite <- app_comm_cons || rewrite <- app_assoc).
+    repeat (rewrite get_string_app by (apply wf_str_ok; assumption); cbn [obind]).
+    repeat (rewrite lenN_app in G || rewrite lenN_cons in G). change (lenN (be16 order)) with 2 in G. change (lenN (be16 pref)) with 2 in G.
+    match type of G with get_name _ (_, ?a) = _ => match goal with |- context [get_name _ (_, ?b)] => replace b with a by lia end end.
+    rewrite G. cbn [obind].
+    repeat (rewrite lenN_app || rewrite lenN_cons). change (lenN (be16 order)) with 2. change (lenN (be16 pref)) with 2.
+    match goal with |- Ok (_, (_, ?a)) = Ok (_, (_, ?b)) => replace a with b by lia end. reflexivity.
+  - (* other *) destruct cs as [|c1 [|? ?]]; cbn [reads] in HR; try (exfalso; tauto). destruct HR as [-> _].
+    cbn [concat app] in *. rewrite app_nil_r in *.
+    destruct (other_type _ _ Hk) as (E1 & E2 & E3 & E4 & E5 & E6 & E7 & E8 & E9 & E10).
+    rewrite E1, E2, E3, E4, E5, E6, E7, E8, E9, E10. rewrite get_bytes_app. cbn [obind]. reflexivity.
+Qed.
+
+(* ---- a whole record ------------------------------------------------------------ *)
+Lemma wf_rr_parts r : wf_rr r = true ->
+  wf_name (r_name r) = true /\ r_class r < 65536 /\ r_type r < 65536 /\ r_ttl r < 4294967296 /\
+  kind_type_ok (r_type r) (r_data r) = true /\ wf_rdata (r_data r) = true.
+Proof. unfold wf_rr. intros H. btrue H. wnum. repeat split; assumption. Qed.
+
+Lemma fields_bound d : wf_rdata d = true ->
+  fold_right (fun f a => field_len f + a) 0 (fields_of d) < 65536.
+Proof.
+  intros H.
+  destruct d; cbn [fields_of fold_right field_len]; cbn [wf_rdata] in H; btrue H;
+    repeat match goal with Hn : wf_name _ = true |- _ => apply wf_name_labels in Hn as [_ ?] end;
+    repeat match goal with Hs : wf_str _ = true |- _ => apply wf_str_ok in Hs end;
+    try lia.
+  - change (lenN (be16 pref)) with 2. lia.
+  - repeat rewrite lenN_app. repeat change (lenN (be32 _)) with 4. lia.
+  - match goal with Ho : wf_opts _ = true |- _ => apply wf_opts_ok in Ho as [_ ?] end. lia.
+  - change (lenN (be16 subtype)) with 2. lia.
+  - change (lenN (be16 pref)) with 2. lia.
+  - repeat (rewrite lenN_app || rewrite lenN_cons). change (lenN (be16 order)) with 2. change (lenN (be16 pref)) with 2. lia.
+  - match goal with Hx : (lenN data <? 65536) = true |- _ => apply N.ltb_lt in Hx end. lia.
+Qed.
+
+Definition rr_read (B : list N) (c : cur) (r : rr) (c' : cur) : Prop := get_rr B c = Ok (r, c').
+
+Lemma rr_written buf kids r :
+  0 < lenN buf -> Forall (tree_ok buf []) kids -> wf_rr r = true ->
+  exists b kids', push_rr (lenN buf) kids r = Ok (b, kids') /\
+    Forall (tree_ok (buf ++ b) []) kids' /\ 0 < lenN b /\
+    forall post, get_rr (buf ++ b ++ post) (b ++ post, lenN buf) = Ok (r, (post, lenN buf + lenN b)).
+Proof.
+  intros Hpos Hk Hwf. apply wf_rr_parts in Hwf as (Hn & Hc & Ht & Hl & Hkt & Hd).
+  destruct (get_name_written buf kids (r_name r) Hpos Hk Hn) as (nb & k1 & En & T1 & _ & Lnb & Rn).
+  assert (Hp1 : 0 < lenN (buf ++ nb)) by (rewrite lenN_app; lia).
+  destruct (fields_written (fields_of (r_data r)) (buf ++ nb) k1 10 Hp1 T1 (wf_rdata_fields _ Hd))
+    as (cs & k2 & Ef & Lf & Hf).
+  pose proof (fields_bound _ Hd) as Lb.
+  assert (HL : lenN (concat cs) < 65536) by lia.
+  rewrite lenN_app in Ef.
+  pose proof (push_rdata_fields _ _ _ _ _ _ Hd Hkt Ef) as Epd.
   set (fixed := be16 (r_type r) ++ be16 (r_class r) ++ be32 (r_ttl r)).
-  assert (Hfl : lenN fixed = 8) by reflexivity.
-  (* the data octets do not depend on the octets before them *)
-  set (pre0 := buf ++ nb ++ fixed ++ be16 0).
-  assert (Hl0 : lenN pre0 = lenN buf + lenN nb + 10).
-  { unfold pre0. rewrite !lenN_app, Hfl. change (lenN (be16 0)) with 2. lia. }
-  assert (Hp0 : 0 < lenN pre0) by lia.
-  assert (Hk0 : Forall (tree_ok pre0 []) k1).
-  { unfold pre0. rewrite app_assoc. now apply forall_tree_ok_app. }
-  destruct (get_name_written pre0 k1 d Hp0 Hk0 Hd) as (db & k2 & Ed & _ & _).
-  rewrite Hl0 in Ed.
-  set (pre := buf ++ nb ++ fixed ++ be16 (lenN db)).
-  assert (Hl1 : lenN pre = lenN buf + lenN nb + 10).
-  { unfold pre. rewrite !lenN_app, Hfl. change (lenN (be16 (lenN db))) with 2. lia. }
-  assert (Hp1 : 0 < lenN pre) by lia.
-  assert (Hkp : Forall (tree_ok pre []) k1).
-  { unfold pre. rewrite app_assoc. now apply forall_tree_ok_app. }
-  destruct (get_name_written pre k1 d Hp1 Hkp Hd) as (db' & k2' & Ed' & Hk2 & Gd).
-  rewrite Hl1, Ed in Ed'. inversion Ed'; subst db' k2'. clear Ed'.
-  assert (Hdl : lenN db < 65536).
-  { apply wf_name_labels in Hd as [Hl Hw]. pose proof (push_name_len _ _ _ _ _ Hl Ed). lia. }
-  assert (Hpd : push_rdata (lenN buf + lenN nb + 10) k1 (r_type r) (r_data r) = Ok (db, k2)).
-  { destruct Hty as [[_ ->]|[[_ ->]|[_ ->]]]; exact Ed. }
-  exists (nb ++ fixed ++ be16 (lenN db) ++ db), k2.
-  split; [|split].
-  - unfold push_rr. rewrite En. cbn [obind]. rewrite Hpd. reflexivity.
-  - replace (buf ++ nb ++ fixed ++ be16 (lenN db) ++ db) with (pre ++ db)
-      by (unfold pre; now rewrite <- !app_assoc).
-    exact Hk2.
-  - unfold get_rr. rewrite Gn. cbn [obind]. unfold fixed. rewrite <- !app_assoc.
-    assert (Hty16 : r_type r < 65536) by (destruct Hty as [[-> _]|[[-> _]|[-> _]]]; reflexivity).
-    rewrite get_u16_be16 by exact Hty16. cbn [obind].
+  set (gap := fixed ++ be16 (lenN (concat cs))).
+  assert (Hg : lenN gap = 10) by reflexivity.
+  destruct (Hf gap Hg) as [T2 R2].
+  exists (nb ++ fixed ++ be16 (lenN (concat cs)) ++ concat cs), k2.
+  split; [|split; [|split]].
+  - unfold push_rr. rewrite En. cbn [obind]. rewrite Epd. reflexivity.
+  - unfold gap in T2. rewrite <- !app_assoc in T2. exact T2.
+  - rewrite lenN_app. lia.
+  - intros post. unfold get_rr.
+    destruct (Rn ((fixed ++ be16 (lenN (concat cs)) ++ concat cs) ++ post)) as [Gn _].
+    rewrite <- !app_assoc in Gn. rewrite <- !app_assoc. rewrite Gn. cbn [obind].
+    unfold fixed. rewrite <- !app_assoc.
+    rewrite get_u16_be16 by exact Ht. cbn [obind].
     rewrite get_u16_be16 by exact Hc. cbn [obind].
-    rewrite get_u32_be32 by exact Ht. cbn [obind].
-    unfold get_rdata. rewrite get_u16_be16 by exact Hdl. cbn [obind].
-    specialize (Gd []). rewrite app_nil_r in Gd.
-    replace (buf ++ nb ++ be16 (r_type r) ++ be16 (r_class r) ++ be32 (r_ttl r) ++ be16 (lenN db) ++ db)
-      with (pre ++ db) by (unfold pre, fixed; now rewrite <- !app_assoc).
-    replace (lenN buf + lenN nb + 2 + 2 + 4 + 2) with (lenN pre) by lia.
-    assert (Hfin : lenN pre + lenN db = lenN buf + lenN (nb ++ (be16 (r_type r) ++ be16 (r_class r) ++ be32 (r_ttl r)) ++ be16 (lenN db) ++ db)).
-    { rewrite Hl1, !lenN_app. change (lenN (be16 (r_type r))) with 2. change (lenN (be16 (r_class r))) with 2.
-      change (lenN (be32 (r_ttl r))) with 4. change (lenN (be16 (lenN db))) with 2. lia. }
-    destruct Hty as [[E1 E2]|[[E1 E2]|[E1 E2]]]; rewrite E1; cbn; rewrite Gd; cbn [obind];
-      rewrite Hfin; destruct r; simpl in *; subst; reflexivity.
+    rewrite get_u32_be32 by exact Hl. cbn [obind].
+    specialize (R2 post). unfold gap, fixed in R2. rewrite <- !app_assoc in R2. rewrite lenN_app in R2.
+    replace (lenN buf + lenN nb + 10) with (lenN buf + lenN nb + 2 + 2 + 4 + 2) in R2 by lia.
+    rewrite (rdata_read _ _ _ _ _ _ Hd Hkt HL R2). cbn [obind].
+    replace (lenN buf + lenN nb + 2 + 2 + 4 + 2 + lenN (concat cs))
+      with (lenN buf + lenN (nb ++ be16 (r_type r) ++ be16 (r_class r) ++ be32 (r_ttl r) ++ be16 (lenN (concat cs)) ++ concat cs)).
+    2:{ rewrite !lenN_app. change (lenN (be16 (r_type r))) with 2. change (lenN (be16 (r_class r))) with 2.
+        change (lenN (be32 (r_ttl r))) with 4. change (lenN (be16 (lenN (concat cs)))) with 2. lia. }
+    destruct r; reflexivity.
 Qed.
